@@ -2327,12 +2327,16 @@ package gocql
 // in every case (deferred close); a failure is recorded and the entry removed (not cached); a
 // success records the id (copied), request and response metadata of *this* PREPARE's answer
 //@ func (c *Conn) prepareStatement$2
-//@   props C14
+//@   props C14 C03 C04
 //@   count_calls exec parseFrame preparedLRU.remove
 //@   requires *c != nil && (*c).session != nil && (*c).session.stmtsLRU != nil && *flight != nil && (*flight).done != nil && plru_bound((*c).session.stmtsLRU) && conn_ok(*c) && (*c).ctx != nil
 //@   requires (*flight).err == nil && (*flight).preparedStatment == nil
 //@   before exec: arg1 == (*c).ctx
 //@   before preparedLRU.remove: same(arg1, *stmtCacheKey)
+// C03: the PREPARE request carries this statement, and the connection's keyspace exactly from v5 on; and the
+// prepared statement kept for later EXECUTEs is the id (copied) and the metadata of the PREPARED result (C04)
+//@   before[C03] exec: typeis(arg2, *writePrepareFrame) && unbox(arg2, *writePrepareFrame).statement == *stmt && ((*c).version <= 4 ==> unbox(arg2, *writePrepareFrame).keyspace == "") && ((*c).version > 4 ==> unbox(arg2, *writePrepareFrame).keyspace == (*c).currentKeyspace) && len(unbox(arg2, *writePrepareFrame).customPayload) == 0
+//@   ensures[C04] exec_ret1 == nil && parseFrame_ret1 == nil && typeis(parseFrame_ret0, *resultPreparedFrame) ==> (*flight).preparedStatment != nil && len((*flight).preparedStatment.id) == len(unbox(parseFrame_ret0, *resultPreparedFrame).preparedID) && forall(k, 0 <= k && k < len((*flight).preparedStatment.id), (*flight).preparedStatment.id[k] == unbox(parseFrame_ret0, *resultPreparedFrame).preparedID[k]) && same((*flight).preparedStatment.request.resultMetadata.columns, unbox(parseFrame_ret0, *resultPreparedFrame).reqMeta.resultMetadata.columns) && same((*flight).preparedStatment.response.columns, unbox(parseFrame_ret0, *resultPreparedFrame).respMeta.columns) && (*flight).preparedStatment.request.resultMetadata.actualColCount == unbox(parseFrame_ret0, *resultPreparedFrame).reqMeta.resultMetadata.actualColCount && (*flight).preparedStatment.response.actualColCount == unbox(parseFrame_ret0, *resultPreparedFrame).respMeta.actualColCount
 //@   ensures exec_calls == 1
 //@   ensures (*flight).err != nil ==> preparedLRU_remove_calls == 1 && (*flight).preparedStatment == nil
 //@   ensures (*flight).err == nil ==> preparedLRU_remove_calls == 0 && (*flight).preparedStatment != nil
